@@ -7,6 +7,11 @@
   `KS.modDown (pinvElt) (π x) (ofInts qs (cenZ x_P))` with `cenZ` = C02's `centeredRep P` of the CRT value
   (`rq_modDown_eq`, `rgsw_modDown_eq`); hence `P·down x = π x − π(remC x)` (`rq_modDown_closed`,
   `rgsw_modDown_closed`), `remC x ≡ x (mod P)` (`StackKS.partP_remC`) and `2‖cenZ‖∞ ≤ P` (`StackKS.cenZ_bound`).
+
+  `mdRows_round`, `rq_modDown_round`, `rgsw_modDown_round`, `modDownR_round` (C04, under the named IEEE hypothesis):
+  every coefficient of the result is `⌊(X + ⌊P/2⌋)/P⌋ mod q_i` — C02's `modDown_round`, i.e. what
+  `Props/C02.modDownQPtoQ_limbs` proves of the limb-level twin for the exact index: the three scheme-level
+  models and the limb-level `BasisExt.modDownQPtoQ` compute the same residues.
 -/
 import Lattigo.Proofs.StackKS
 import Lattigo.Model.RGSW
@@ -148,5 +153,129 @@ theorem rgsw_modDown_closed (hps : ps ≠ [])
   rw [rgsw_modDown_eq hps hx]; exact exact_modDown_closed hps hcop hx
 
 end models
+
+/-! ## `ModDown` is the ROUNDED division by `P` (C02's `modDown_round`) -/
+
+section round
+variable {qs ps : List ℕ} {n : ℕ} [hgq : Good qs n] [hg : Good (qs ++ ps) n]
+
+theorem getD_map_zip {α β γ : Type} (a : List α) (b : List β) (g : α × β → γ) (da : α) (db : β) (dg : γ) (t : ℕ)
+    (h1 : t < a.length) (h2 : t < b.length) :
+    ((a.zip b).map g).getD t dg = g (a.getD t da, b.getD t db) := by
+  have hl : t < ((a.zip b).map g).length := by simp; omega
+  rw [← List.getElem_eq_getD (h := hl) dg, List.getElem_map, List.getElem_zip,
+    List.getElem_eq_getD (h := h1) da, List.getElem_eq_getD (h := h2) db]
+
+theorem centeredRep_mod (P X : ℕ) : centeredRep P (X % P) = centeredRep P X := by
+  unfold centeredRep; rw [Nat.mod_add_mod]
+
+/-- **every coefficient of the exact `ModDown` rows is `⌊(X + ⌊P/2⌋)/P⌋ mod q_i`**, `X` the integer (`< QP`) whose
+residues modulo `qs ++ ps` are the coefficient's column — the statement `Props/C02` makes about the limb-level
+`BasisExt.modDownQPtoQ` with the exact index (`modDownQPtoQ_limbs`, through `modDown_err`); here for the scheme-level
+models, from C02's `modDown_round`. -/
+theorem mdRows_round (hco : (qs ++ ps).Pairwise Nat.Coprime) {x : RPoly} (hx : WFq (qs ++ ps) n x)
+    (hps : ps ≠ []) (i : ℕ) (hi : i < qs.length) (t : ℕ) (ht : t < n) (X : ℕ)
+    (hres : List.Forall₂ (fun m r => r % m = X % m) (qs ++ ps) (KS.colOf x.c t)) :
+    ((mdRows qs (RPoly.prod ps) (x.c.take qs.length) (cenZ (KS.partP qs.length x))).getD i []).getD t 0
+      = ((X + prodN ps / 2) / prodN ps) % qs.getD i 0 := by
+  have hpsc := StackKS.pairwise_right hco
+  have hpge : ∀ p ∈ ps, 2 ≤ p := (good_right hg).q_ge
+  have hcl : x.c.length = qs.length + ps.length := by rw [hx.2.1, hx.1, List.length_append]
+  have hq2 : 2 ≤ qs.getD i 0 := by
+    have : qs.getD i 0 = qs[i] := by simp [List.getD_eq_getElem?_getD, hi]
+    rw [this]; exact hgq.q_ge _ (List.getElem_mem hi)
+  have hPpos : 0 < prodN ps := BasisExt.prodN_pos ps (pos_of_ge2 hpge)
+  -- the `Q` entry
+  have hiL : i < (qs ++ ps).length := by rw [List.length_append]; omega
+  obtain ⟨hrl, hvlt⟩ := wf_entry_lt hx i hiL t ht
+  have hqi : (qs ++ ps).getD i 0 = qs.getD i 0 := by
+    simp [List.getD_eq_getElem?_getD, List.getElem?_append_left hi]
+  rw [hqi] at hvlt
+  have hv := forall₂_getD hres i hiL
+  rw [colOf_getD _ _ _ (by omega), hqi, Nat.mod_eq_of_lt hvlt] at hv
+  -- the lift is `centeredRep P X`
+  have hw := partP_wf hx
+  have hlen := cenZ_length hw hps
+  have hlt : (cenZ (KS.partP qs.length x)).getD t 0 = centeredRep (prodN ps) X := by
+    have h1 : (KS.partP qs.length x).qs = ps := hw.1
+    have hl : t < (cenZ (KS.partP qs.length x)).length := by rw [hlen]; exact ht
+    rw [← List.getElem_eq_getD (h := hl) 0]
+    simp only [cenZ, List.getElem_map, List.getElem_range, h1]
+    have hresP : List.Forall₂ (fun m r => r % m = (X % prodN ps) % m) ps
+        (KS.colOf (KS.partP qs.length x).c t) := by
+      have e : KS.colOf (KS.partP qs.length x).c t = (KS.colOf x.c t).drop qs.length := by
+        simp [KS.colOf, KS.partP, List.map_drop]
+      rw [e]
+      have hd := List.forall₂_drop qs.length hres
+      rw [List.drop_left' rfl] at hd
+      exact forall₂_imp_mem hd (fun m hm r hr => by
+        rw [Nat.mod_mod_of_dvd _ (dvd_prodN ps m hm)]; exact hr)
+    rw [crt_eq ps _ (X % prodN ps) hpsc hpge (Nat.mod_lt _ hPpos) hresP, centeredRep_mod]
+  -- unfold the row
+  have hrow : (mdRows qs (RPoly.prod ps) (x.c.take qs.length) (cenZ (KS.partP qs.length x))).getD i []
+      = ((x.c.getD i []).zip (cenZ (KS.partP qs.length x))).map fun (vl : ℕ × ℤ) =>
+          (((vl.1 : ℤ) - vl.2) % ((qs.getD i 0 : ℕ) : ℤ)).toNat
+            * RPoly.modInv (RPoly.prod ps % qs.getD i 0) (qs.getD i 0) % qs.getD i 0 := by
+    unfold mdRows
+    simp [List.getD_eq_getElem?_getD, hi, (by omega : i < x.c.length)]
+  rw [hrow]
+  have hget : ∀ (g : ℕ × ℤ → ℕ), (((x.c.getD i []).zip (cenZ (KS.partP qs.length x))).map g).getD t 0
+      = g ((x.c.getD i []).getD t 0, (cenZ (KS.partP qs.length x)).getD t 0) := fun g =>
+    getD_map_zip _ _ g 0 0 0 t (by rw [hrl]; exact ht) (by rw [hlen]; exact ht)
+  rw [hget]
+  simp only []
+  rw [hlt, hv]
+  -- C02's `modDown_round`
+  set q := qs.getD i 0 with hq
+  set c := RPoly.modInv (RPoly.prod ps % q) q with hc
+  have hcop : Nat.Coprime (RPoly.prod ps) q := by
+    have : q = qs[i] := by simp [hq, List.getD_eq_getElem?_getD, hi]
+    rw [this]
+    exact coprime_prod_of_pairwise hco _ (List.getElem_mem hi)
+  have hinv : (prodN ps * c) % q = 1 := by
+    rw [← prod_eq_prodN]; exact mul_modInv_mod _ _ hq2 hcop
+  set ei := (centeredRep (prodN ps) X % (q : ℤ)).toNat with hei
+  have hnn : 0 ≤ centeredRep (prodN ps) X % (q : ℤ) := Int.emod_nonneg _ (by omega)
+  have he : ((ei : ℕ) : ℤ) % (q : ℤ) = centeredRep (prodN ps) X % (q : ℤ) := by
+    rw [hei, Int.toNat_of_nonneg hnn, Int.emod_emod_of_dvd _ (dvd_refl _)]
+  have hround := modDown_round q (prodN ps) c X ei (by omega) hinv he
+  rw [← hround]
+  unfold modDownRes
+  rw [← md_point q (by omega) (X % q) (centeredRep (prodN ps) X), Nat.mod_mul_mod]
+
+/-- C03: every coefficient of `RLWE.RQ.modDown` is the rounded quotient -/
+theorem rq_modDown_round (hco : (qs ++ ps).Pairwise Nat.Coprime) (ci : Bool) {x : RPoly}
+    (hx : WFq (qs ++ ps) n x) (hps : ps ≠ []) (i : ℕ) (hi : i < qs.length) (t : ℕ) (ht : t < n) (X : ℕ)
+    (hres : List.Forall₂ (fun m r => r % m = X % m) (qs ++ ps) (KS.colOf x.c t)) :
+    ((RLWE.RQ.modDown qs.length ⟨ci, x⟩).p.c.getD i []).getD t 0
+      = ((X + prodN ps / 2) / prodN ps) % qs.getD i 0 := by
+  have h := rq_modDown_eq hps (StackKS.pairwise_right hco) ci hx
+  rw [← mdRows_eq ps (takeRows_wf hx) _ (cenZ_length (partP_wf hx) hps)] at h
+  rw [h]
+  exact mdRows_round hco hx hps i hi t ht X hres
+
+/-- C20: every coefficient of `RGSW.modDown` is the rounded quotient -/
+theorem rgsw_modDown_round (hco : (qs ++ ps).Pairwise Nat.Coprime) {x : RPoly}
+    (hx : WFq (qs ++ ps) n x) (hps : ps ≠ []) (i : ℕ) (hi : i < qs.length) (t : ℕ) (ht : t < n) (X : ℕ)
+    (hres : List.Forall₂ (fun m r => r % m = X % m) (qs ++ ps) (KS.colOf x.c t)) :
+    ((RGSW.modDown qs ps x).c.getD i []).getD t 0 = ((X + prodN ps / 2) / prodN ps) % qs.getD i 0 := by
+  have h := rgsw_modDown_eq hps hx
+  rw [← mdRows_eq ps (takeRows_wf hx) _ (cenZ_length (partP_wf hx) hps)] at h
+  rw [h]
+  exact mdRows_round hco hx hps i hi t ht X hres
+
+/-- C04: under the named IEEE hypothesis, every coefficient of the driver's `Evaluator.ModDown` is the rounded
+quotient (so the three models and C02's limb-level twin agree) -/
+theorem modDownR_round (hqs : qs ≠ []) (hco : (qs ++ ps).Pairwise Nat.Coprime) {x : RPoly}
+    (hx : WFq (qs ++ ps) n x) (hps : ps ≠ []) (hf : FloatExactPoly (KS.partP qs.length x))
+    (i : ℕ) (hi : i < qs.length) (t : ℕ) (ht : t < n) (X : ℕ)
+    (hres : List.Forall₂ (fun m r => r % m = X % m) (qs ++ ps) (KS.colOf x.c t)) :
+    ((KS.modDownR qs.length x).c.getD i []).getD t 0 = ((X + prodN ps / 2) / prodN ps) % qs.getD i 0 := by
+  have hpge : ∀ p ∈ ps, 2 ≤ p := (good_right hg).q_ge
+  rw [modDownR_eq hqs hps hx, modUpPtoQ_eq, remZ_eq_cenZ (partP_wf hx) (StackKS.pairwise_right hco) hpge hf,
+    ← mdRows_eq ps (takeRows_wf hx) _ (cenZ_length (partP_wf hx) hps)]
+  exact mdRows_round hco hx hps i hi t ht X hres
+
+end round
 
 end Lattigo.StackKS
